@@ -349,6 +349,7 @@ let next_dop t : dop =
   | "setusers" -> DSetUsers (next_list t next_dentry)
   | "setgroups" -> DSetGroups (next_list t next_dentry)
   | "setanon" -> DSetAnon (next_bool t)
+  | "users" -> DUsers
   | k -> failwith ("bad dop " ^ k)
 let out_dentry (e : dentry) = hex_of_bytes e.d_dn ^ " " ^ out_list (fun (n, vs) -> hex_of_bytes n ^ " " ^ out_list hex_of_bytes vs) e.d_attrs
 let do_dir t =
